@@ -7,7 +7,13 @@ mod probe;
 mod c02;
 mod c03;
 mod c12;
+mod c13;
+mod c14;
+mod c15;
 mod c16;
+mod c17;
+mod c18;
+mod c19;
 mod sweep;
 
 use mon::*;
@@ -21,7 +27,13 @@ fn main() {
         "C02" => c02::run(&a, &mut m),
         "C03" => c03::run(&a, &mut m),
         "C12" => c12::run(&a, &mut m),
+        "C13" => c13::run(&a, &mut m),
+        "C14" => c14::run(&a, &mut m),
+        "C15" => c15::run(&a, &mut m),
         "C16" => c16::run(&a, &mut m),
+        "C17" => c17::run(&a, &mut m),
+        "C18" => c18::run(&a, &mut m),
+        "C19" => c19::run(&a, &mut m),
         p => {
             eprintln!("unknown property {}", p);
             std::process::exit(3);
